@@ -127,6 +127,23 @@ Proof.
 Qed.
 Print Assumptions cut_balanced_cap.
 
+(** 5a. aggregate_dendrogram: for every valid dendrogram and 1 <= n_clusters <= n the result is a valid
+    dendrogram over the kept clusters (leaf l standing for [true_count] = size of the kept subtree), with the
+    heights of the last n_clusters - 1 merges, and counts (return_counts) equal to those sizes, summing to n. *)
+Theorem aggregate_dendrogram_valid n D nc rc out oc :
+  valid n D = true -> aggregate_dendrogram D nc rc = Ok (out, oc) ->
+  1 <= nc <= n /\
+  let ws := if Nat.eqb nc 1 then [n] else map (true_count n D) (kept_ids n D nc) in
+  validw ws out = true /\ length ws = nc /\ sumn ws = n /\
+  heights out = heights (skipn (n - nc) D) /\ (rc = true -> oc = Some ws).
+Proof. exact (aggregate_dendrogram_ok n D nc rc out oc). Qed.
+Print Assumptions aggregate_dendrogram_valid.
+
+Theorem aggregate_dendrogram_returns n D nc rc :
+  valid n D = true -> 1 <= nc <= n -> exists out oc, aggregate_dendrogram D nc rc = Ok (out, oc).
+Proof. exact (aggregate_dendrogram_total n D nc rc). Qed.
+Print Assumptions aggregate_dendrogram_returns.
+
 (** The stable argsort meets the oracle contract (the hypotheses above are satisfiable). *)
 Theorem argsort_contract_satisfiable : argsort_ok stable_argsort.
 Proof. exact stable_argsort_ok. Qed.
